@@ -1,4 +1,3 @@
 # Sourced by every command: offline Go 1.24 toolchain from the module cache.
 export PATH=/root/go/pkg/mod/golang.org/toolchain@v0.0.1-go1.24.0.linux-amd64/bin:$PATH
 export GOTOOLCHAIN=local GOSUMDB=off GOFLAGS=-mod=mod GOPROXY=off
-export VERIF_ROOT=/verif
